@@ -5,6 +5,7 @@
 namespace c20 {
 en::Recorder R;
 int g_side_effects = 0;
+int g_live = 0;
 int throwing_value() { throw std::runtime_error("ret"); }
 }
 using namespace c20;
@@ -14,13 +15,13 @@ static std::vector<std::string> g_reports;
 
 static std::vector<std::string> expected_events(const ShapeDesc& s) {
   std::vector<std::string> v;
-  for (int i = 0; i < s.nyield; ++i) v.push_back("Y" + std::to_string(10 + i));
+  for (int i = 0; i < s.nyield; ++i) v.push_back("Y" + std::to_string(10 + i));  // also for LR_CO_YIELD(g_live + i) with g_live == 10 at the time of the yields
   v.push_back(s.terminal);
   return v;
 }
 
 struct Run {
-  const ShapeDesc& s; int ncalls; bool allow_destroy;
+  const ShapeDesc& s; int ncalls; bool allow_destroy; bool allow_mock_death = false; bool mock_dead = false;
   std::vector<int> ops;  // >= 0: step coroutine i; -1: call; -2-i: destroy coroutine i
   long runs = 0;
 };
@@ -28,9 +29,11 @@ struct Run {
 // executes one complete operation sequence on a fresh mock; returns a description of the first deviation or ""
 static std::string execute(const ShapeDesc& s, const std::vector<int>& ops, std::string* trace) {
   g_side_effects = 0; g_reports.clear();
-  M m;
+  std::unique_ptr<M> mp(new M); M& m = *mp;
+  g_live = -1000;             // value at creation time: must not be what LR_CO_YIELD yields
   E e = s.make(m);
-  std::vector<std::unique_ptr<ICoro>> co; std::vector<std::vector<std::string>> ev; std::vector<bool> destroyed;
+  if (s.live) g_live = s.live;
+  std::vector<std::unique_ptr<ICoro>> co; std::vector<std::vector<std::string>> ev; std::vector<bool> destroyed; bool mock_dead = false;
   std::vector<std::string> want = expected_events(s);
   std::string bad;
   for (int op : ops) {
@@ -42,6 +45,12 @@ static std::string execute(const ShapeDesc& s, const std::vector<int>& ops, std:
       if (g_side_effects != before + 1 && bad.empty()) bad = "SIDE_EFFECT did not run exactly once at call time";
       std::string a = co.back()->at_call(); if (!a.empty()) ev.back().push_back(a);
       if (trace) *trace += "call->c" + std::to_string(co.size() - 1) + (a.empty() ? "" : "[" + a + "]") + " ";
+    } else if (op == -100) {
+      // the mock object dies while its coroutines are suspended; the NAMED expectation stays alive, so they must still run to their end
+      g_reports.clear(); mp.reset();
+      if (!g_reports.empty() && !(g_reports.size() == 1 && g_reports[0].rfind("Pending expectation on destroyed mock object", 0) == 0) && bad.empty()) bad = "unexpected report at mock destruction: " + g_reports[0];
+      mock_dead = true; g_reports.clear();
+      if (trace) *trace += "destroy-mock ";
     } else if (op >= 0) {
       int before = g_side_effects;
       std::string r = co[(size_t)op]->step(); ev[(size_t)op].push_back(r);
@@ -61,7 +70,8 @@ static std::string execute(const ShapeDesc& s, const std::vector<int>& ops, std:
   // the expectation needed 3 calls: fewer calls give exactly one 'Unfulfilled' report at release, 3 calls none
   size_t calls = ev.size(); g_reports.clear();
   e.reset();
-  if (bad.empty()) {
+  if (bad.empty() && mock_dead) { if (!g_reports.empty()) bad = "release after the mock died reported again: " + g_reports[0]; }
+  else if (bad.empty()) {
     if (calls < 3 && (g_reports.size() != 1 || g_reports[0].rfind("Unfulfilled expectation", 0) != 0)) bad = "release after " + std::to_string(calls) + " of 3 calls did not give exactly one unfulfilled report";
     if (calls == 3 && !g_reports.empty()) bad = "release after 3 of 3 calls reported: " + g_reports[0];
   }
@@ -89,11 +99,18 @@ static void enumerate(Run& r, std::vector<int>& created_fin, int created, int de
       created_fin[(size_t)i] = 0; steps_left[(size_t)i] = keep; r.ops.pop_back();
     }
   }
+  if (!any && r.allow_mock_death && !r.mock_dead && created == r.ncalls) {
+    // variant: the mock dies right after the last call, before anything else is resumed... handled below by insertion at every point
+  }
+  if (r.allow_mock_death && !r.mock_dead && created == r.ncalls && created > 0) {
+    bool unfinished = false; for (int i = 0; i < created; ++i) if (!created_fin[(size_t)i]) unfinished = true;
+    if (unfinished) { r.ops.push_back(-100); r.mock_dead = true; enumerate(r, created_fin, created, destroyed_one, steps_left); r.mock_dead = false; r.ops.pop_back(); }
+  }
   if (!any) {
     ++r.runs;
     std::string trace;
     std::string bad = execute(r.s, r.ops, R.filter.empty() ? nullptr : &trace);
-    std::string id; for (int op : r.ops) id += (op == -1 ? std::string("call") : op >= 0 ? "c" + std::to_string(op) : "destroy" + std::to_string(-2 - op)) + " ";
+    std::string id; for (int op : r.ops) id += (op == -1 ? std::string("call") : op == -100 ? std::string("destroy-mock") : op >= 0 ? "c" + std::to_string(op) : "destroy" + std::to_string(-2 - op)) + " ";
     R.check(r.s.text, std::to_string(r.ncalls) + " calls, order: " + id, bad.empty() ? std::string("as specified") : bad, std::string("as specified"), r.s.fn);
     if (!R.filter.empty() && R.wanted(std::string(r.s.text) + " <- " + std::to_string(r.ncalls) + " calls, order: " + id)) printf("   trace: %s\n", trace.c_str());
   }
@@ -128,7 +145,7 @@ int main(int argc, char** argv) {
       int maxy = n == 3 ? (R.thorough() ? 2 : 1) : (n == 2 ? (R.thorough() ? 4 : 2) : 4);
       if (s.nyield > maxy) continue;
       bool destroy = R.thorough() ? (n <= 2 || s.nyield <= 1) : (n == 2 && s.nyield <= 1);
-      Run r{s, n, destroy, {}, 0};
+      Run r{s, n, destroy, n <= 2 && s.nyield >= 1 && s.nyield <= (R.thorough() ? 3 : 2), false, {}, 0};
       std::vector<int> fin, left; enumerate(r, fin, 0, 0, left); runs += r.runs;
     }
   }
